@@ -22,7 +22,7 @@ package proposal
 //@   ensures {C01} abort-writes-no-values: cfgValueWrites == old(cfgValueWrites) && cfgCreates == old(cfgCreates)
 // an abort moves each index of the configuration only from its predecessor's index to its own: it never overtakes an
 // earlier change that is still waiting to be committed or applied
-//@   ensures {C02,C04,C11} abort-never-overtakes: cfgStatusWrites > old(cfgStatusWrites) ==> (storedCfgApplied != readCfgApplied ==> readCfgApplied == proposal.Status.PrevIndex && storedCfgApplied == proposal.TransactionIndex) && (storedCfgCommitted != readCfgCommitted ==> readCfgCommitted == proposal.Status.PrevIndex && storedCfgCommitted == proposal.TransactionIndex)
+//@   ensures {C01,C02,C04,C11} abort-never-overtakes: cfgStatusWrites > old(cfgStatusWrites) ==> (storedCfgApplied != readCfgApplied ==> readCfgApplied == proposal.Status.PrevIndex && storedCfgApplied == proposal.TransactionIndex) && (storedCfgCommitted != readCfgCommitted ==> readCfgCommitted == proposal.Status.PrevIndex && storedCfgCommitted == proposal.TransactionIndex)
 // recovery after a crash between the configuration write and the proposal write of the abort step
 //@   ensures {C07} abort-completes-once-indexes-passed: old(proposal.Status.Phases.Abort.State) == configapi.ProposalAbortPhase_ABORTING && readCfgOK && readCfgCommitted >= proposal.TransactionIndex && readCfgApplied >= proposal.TransactionIndex && err == nil ==> proposal.Status.Phases.Abort.State == configapi.ProposalAbortPhase_ABORTED
 
@@ -86,6 +86,12 @@ package proposal
 //@   ensures {C10} set-goes-over-the-master-connection: deviceSetCalls > old(deviceSetCalls) ==> lastSetConnID == readCfgMaster
 //@   ensures {C10} apply-carries-term: deviceSetCalls > old(deviceSetCalls) ==> lastSetHasArbitration && lastSetElectionLow == readCfgTerm && lastSetElectionHigh == 0
 //@   ensures {C02,C04,C07} applied-index-follows-device: deviceSetCalls > old(deviceSetCalls) && err == nil && (deviceCode == codes.OK) ==> storedCfgApplied == proposal.TransactionIndex && applyState(proposal) == configapi.ProposalApplyPhase_APPLIED
+// what the device accepted is what the record of applied values holds afterwards, path for path (the
+// re-synchronisation of a restarted device pushes exactly that record): also for a rollback, whose values carry
+// the index of the earlier transaction that wrote them
+//@   ensures {C04,C06} applied-values-record-what-was-sent: deviceSetCalls > old(deviceSetCalls) && err == nil && deviceCode == codes.OK ==> (forall p string :: (p in updatedChangeValues) ==> writtenAppliedDom[p] && writtenAppliedVal[p] == updatedChangeValues[p])
+//@   loop 2 invariant config != nil && config.Status.Applied.Values != nil
+//@   loop 2 invariant {C04,C06} every-pushed-value-recorded: forall p string :: visited(2)[p] && (p in updatedChangeValues) ==> (p in config.Status.Applied.Values) && config.Status.Applied.Values[p] == updatedChangeValues[p]
 // recovery after a crash between the configuration write and the proposal write: a proposal whose change the
 // configuration already shows as applied completes in this step, whatever its predecessor's state
 //@   ensures {C07} applied-index-reached-completes: old(applyState(proposal)) == configapi.ProposalApplyPhase_APPLYING && readCfgOK && readCfgApplied >= proposal.TransactionIndex && err == nil ==> applyState(proposal) == configapi.ProposalApplyPhase_APPLIED && deviceSetCalls == old(deviceSetCalls)
